@@ -1,13 +1,45 @@
 (* C19 -- shallow searches return the exact minimax value.
-   Reference value: Spec/Minimax.v (plain negamax over legal moves, check extension, capture quiescence with stand-pat, the engine's
-   evaluation at the leaves, mate by distance, stalemate zero, the two horizon rules).
-   Proved for every position: at nominal depth <= 2 neither the null-move condition nor the late-move-reduction condition of the
-   model can hold (so no speculative pruning applies).
-   Exactness of the alpha-beta / PVS skeleton w.r.t. the reference (C19_full, visible, not assumed) is decided per run: every
-   printed iteration score of the real engine at depth 1 and 2 with the TT bypassed is compared with the extracted reference. *)
+   Reference value: Spec/GameTree.v instantiated with the chess model in Spec/Minimax.v (plain negamax over legal moves, check
+   extension, capture quiescence with stand-pat, the engine's evaluation at the leaves, mate by distance, stalemate zero, the two
+   horizon rules).
+   Proved here for EVERY position, window, poll oracle, move-ordering state and table content (Proofs/SearchExact.v, a proof over
+   the abstract game interface, instantiated): with the TT bypassed, no stop request and an empty game history, a negamax call of
+   nominal depth <= 2 returns the reference value when the result is inside the window, and otherwise a bound on the reported side;
+   hence every iteration score search() prints at depth 1 or 2 is the exact minimax value.
+   The per-run check additionally compares the real engine's printed scores with the extracted reference (whose evaluator is the
+   verified alpha-beta of Spec/AlphaBeta.v) and the engine's event traces with the model's. *)
 From Coq Require Import NArith ZArith List Bool Lia.
-From JV Require Import Gen.Consts Model.Chess Model.Eval Model.TT Model.Search Model.SearchChess Model.Abs Spec.Minimax.
+From JV Require Import Gen.Consts Model.Chess Model.Eval Model.TT Model.Search Model.SearchChess Model.Abs Spec.GameTree Spec.Minimax Proofs.SearchExact.
 From Coq Require Import FMapPositive.
+Local Open Scope Z_scope.
+
+(* the statement of the property for one negamax call (one iteration of search()) *)
+Theorem C19_exact : forall pollp g (d : nat) a b (e : c_env),
+  ply e = O -> stopping e = false -> ridx e = O -> (d <= 2)%nat -> a < b ->
+  match chess_negamax pollp (fun _ => false) true FUEL g d a b e with
+  | Val s _ => (a < s < b -> s = minimax g (N.of_nat d)) /\
+               (s <= a -> minimax g (N.of_nat d) <= s) /\
+               (s >= b -> minimax g (N.of_nat d) >= s)
+  | OutOfFuel => False
+  end.
+Proof.
+  intros pollp g d a b e P S0 R0 Hd AB. unfold minimax. rewrite Nat2N.id.
+  pose proof (negamax_exact game move generate_moves c_make null_move evaluate c_in_check hash c_half100 move_eqb mcap c_promo c_hidx
+                c_cap_score NULL_MOVE pollp (fun _ => false) true (fun _ => eq_refl) eq_refl g d a b e P S0 R0 Hd AB) as H.
+  unfold chess_negamax. fold c_in_check.
+  destruct (negamax _ _ _ _ _ _ _ _ _ _ _ _ _ _ _ _ _ g d a b e); [|exact H].
+  unfold relZ in H. destruct H as (H1 & H2 & H3). repeat split; intros; try (symmetry; apply H2; assumption); auto.
+Qed.
+
+(* every score printed for depth 1 or 2 by a whole search (iterative deepening with aspiration windows) is the minimax value *)
+Theorem C19_printed_scores : forall pollp g depth t rt outs e s sc mt (d : nat) nd pv,
+  chess_search pollp (fun _ => false) true g depth t rt 0 = SDone outs e s ->
+  In (OInfo sc mt d nd pv) outs -> (d <= 2)%nat -> sc = minimax g (N.of_nat d).
+Proof.
+  intros pollp g depth t rt outs e s sc mt d nd pv H Hin Hd. unfold minimax. rewrite Nat2N.id.
+  exact (search_exact_outputs game move generate_moves c_make null_move evaluate c_in_check hash c_half100 move_eqb mcap c_promo c_hidx
+           c_cap_score NULL_MOVE is_legal pollp (fun _ => false) true (fun _ => eq_refl) eq_refl g depth t rt outs e s H sc mt d nd pv Hin Hd).
+Qed.
 
 (* null move needs n_depth >= 3 and no check: with depth <= 2, n_depth >= 3 forces depth = 2 and a check *)
 Theorem C19_null_move_inactive : forall (depth : nat) (inchk : bool), (depth <= 2)%nat ->
@@ -23,23 +55,12 @@ Proof.
   rewrite E. rewrite andb_false_r. reflexivity.
 Qed.
 
-(* children of a depth <= 2 node are searched with depth <= 2 again (check extension included) *)
-Theorem C19_child_depth : forall (depth : nat) (inchk : bool), (1 <= depth <= 2)%nat -> ((if inchk then S depth else depth) - 1 <= 2)%nat.
-Proof. intros depth [|] H; lia. Qed.
-
-(* the oracle's evaluator (fail-soft alpha-beta, Spec/AlphaBeta.v) returns exactly the plain reference value *)
+(* the oracle's evaluator (fail-soft alpha-beta over capture-ordered successors) returns exactly the plain reference value *)
 Theorem C19_reference_evaluator : forall g depth, minimax_fast g depth = minimax g depth.
 Proof. exact minimax_fast_correct. Qed.
 
-Definition C19_full : Prop := forall pollp g d,
-  (1 <= d <= 2)%nat -> Abs.wf g = true -> (half g < 90)%N ->
-  match chess_negamax pollp (fun _ => false) true FUEL g d (- INFINITY)%Z INFINITY
-          (@init_env game move NULL_MOVE (PositiveMap.empty _) (repeat 0%N 1000) 0) with
-  | Val s _ => s = minimax g (N.of_nat d)
-  | OutOfFuel => False
-  end.
-
+Print Assumptions C19_exact.
+Print Assumptions C19_printed_scores.
 Print Assumptions C19_null_move_inactive.
 Print Assumptions C19_lmr_inactive.
-Print Assumptions C19_child_depth.
 Print Assumptions C19_reference_evaluator.
